@@ -63,6 +63,28 @@ fn check(ctx: &mut Ctx, t: &TextD, font: &MonoFont<'_>, rng: &mut Rng) {
     let (cw, ch) = (font.character_size.width as i32, font.character_size.height as i32);
     let transparent_chars = t.text_color.is_none() && t.bg.is_none();
 
+    // --- (0) layout does not depend on the target: on a bounded target (edges coinciding with or
+    // cutting through the text, only the first row/column visible, nothing visible, zero-sized) draw
+    // returns the same position as on an unbounded one and paints exactly the visible part
+    {
+        ctx.eval();
+        let (whole, next) = draw(t, font);
+        let mut boxes: Vec<embedded_graphics::primitives::Rectangle> = vec![egmon::target::rect(t.at.0 - 3, t.at.1 - 400, 7, 5), egmon::target::rect(t.at.0, t.at.1, 0, 0)];
+        if let Some(cut) = egmon::target::cut_boxes(&whole) {
+            boxes.extend(cut);
+        }
+        let bx = boxes[(whole.hash() % boxes.len() as u64) as usize];
+        let mut tg = IterTarget::<C>::new(bx);
+        let next_b = draw_onto(t, font, &mut tg);
+        let want = egmon::target::restrict(&whole, &bx);
+        if next_b != next {
+            ctx.violation(format!("position-depends-on-target|{}", fc), || format!("{} on target box {:?}", desc(t), egmon::target::rt(&bx)), || format!("draw returns {:?} on the bounded target and {:?} on an unbounded one", next_b, next));
+        } else if !tg.log.map.same(&want) {
+            ctx.violation(format!("bounded-target-map-differs|{}", fc), || format!("{} on target box {:?}", desc(t), egmon::target::rt(&bx)), || format!("first difference {:?} (x, y, bounded, unbounded restricted to the box)", tg.log.map.first_diff(&want)));
+        }
+        ctx.count("bounded_target_draws", 1);
+    }
+
     // --- (1) draw returns the position measure_string predicts (renderer level, single lines)
     for line in t.text.split('\n').map(|l| l.strip_suffix('\r').unwrap_or(l)) {
         ctx.eval();
